@@ -166,6 +166,9 @@ func (vc *VC) runPass() {
 	vc.bindResults(st, fr, fi.Decl.Type, info)
 	// ghost locals
 	for _, g := range vc.contract.GhostVars {
+		if _, clash := vc.prog.DB.Ghosts[g.Name]; clash {
+			vc.fail("function ghost %s has the name of a global ghost variable (updates would go to the global one): rename it", g.Name)
+		}
 		n := "gl$" + g.Name
 		if g.Init != nil {
 			env := vc.topEnv(st, st, fi.Decl.Body.Pos())
